@@ -36,7 +36,7 @@ SPEC = dict(
          '(~0.7e3 queries each; half of them exact-regime requests built from dyadic values) to evaluations and their own cells '
          '(width, generator, branch, direction, exact or random regime) to distinct_nontrivial.',
     exhaustive={'quick': None, 'thorough': None},
-    require=['a_trajtrap::gen', 'a_trajtrap::gen(5 args)', 'a_trajbell::gen(6 args)', 'a_trajbell::jer', 'a_trajtrap::pos', 'w-trap.judged', 'w-bell.judged'] + _W_BRANCHES
+    require=['context-zeroed', 'context-garbage', 'context-reused-after-cruise-plan', 'a_trajtrap::gen', 'a_trajtrap::gen(5 args)', 'a_trajbell::gen(6 args)', 'a_trajbell::jer', 'a_trajtrap::pos', 'w-trap.judged', 'w-bell.judged'] + _W_BRANCHES
             + ['w-trap.' + c for c in _W_CLAUSES] + ['w-bell.' + c for c in _W_CLAUSES + _W_BELL_ONLY]
             + ['trap.judged', 'bell.judged']
             + [b + d for b in _BRANCHES for d in ('', '.forward', '.reversed')]
